@@ -106,8 +106,10 @@ def _one_case(rng, k, force=None):
             if rng.random() < 0.6:
                 kw["scale"] = enc(Fraction(rng.choice([2, 4, 1])))
             metric = {"type": "callable", "id": "rates_vec", "kwargs": kw}
-        elif r < 0.9:
+        elif r < 0.86:
             metric = {"type": "callable", "id": "counts_mat", "kwargs": {"threshold": enc(thr[0])}}
+        elif r < 0.92:      # count-valued metric of unsigned dtype
+            metric = {"type": "callable", "id": "counts_u16", "kwargs": {"threshold": enc(thr[0])}}
         else:
             metric = {"type": "callable", "id": "median_pos", "kwargs": {}}
     metric = force.get("metric", metric)
@@ -136,6 +138,8 @@ def _one_case(rng, k, force=None):
     if sampler["type"] in ("shift", "loo", "identity") and rng.random() < 0.5:
         # a callable sampler is used whatever the other fields of the config say
         sampler["stratified"] = rng.choice(["by_label"] + (["by_group", "by_group"] if kind == "group" else []))
+    if sampler["type"] in ("shift", "loo", "identity"):
+        sampler["unhashable"] = rng.random() < 0.5
     sampler = force.get("sampler", sampler)
     if kind == "sub" and sampler["type"] == "builtin":
         # the built-in samplers of Scores return plain Scores objects; a user subclass is only exercised with custom samplers
@@ -152,7 +156,7 @@ def _one_case(rng, k, force=None):
     # history: further calls on the SAME object with the same metric and kwarg names but other values
     # (scalar -> scalar -> array threshold, another scale)
     more = []
-    if "threshold" in metric["kwargs"] and metric.get("id") not in ("rates_vec", "counts_mat") and rng.random() < force.get("history", 0.3):
+    if "threshold" in metric["kwargs"] and metric.get("id") not in ("rates_vec", "counts_mat", "counts_u16") and rng.random() < force.get("history", 0.3):
         more.append(dict(metric["kwargs"], threshold=enc(_threshold(rng, pool))))
         if rng.random() < 0.6:
             more.append(dict(metric["kwargs"], threshold=[enc(_threshold(rng, pool)) for _ in range(rng.choice([1, 2]))]))
@@ -262,6 +266,7 @@ def run_impl(case):
         "rates_vec": lambda s, threshold, scale=1.0: scale * np.array([s.tpr(threshold), s.fpr(threshold)]),
         "counts_mat": lambda s, threshold: np.array([[int(np.sum(s.pos >= threshold)), int(np.sum(s.neg >= threshold))],
                                                      [len(s.pos), len(s.neg)]]),
+        "counts_u16": lambda s, threshold: np.array([np.sum(s.pos >= threshold), np.sum(s.neg >= threshold), np.sum(s.pos < threshold)]).astype(np.uint16),
         "median_pos": lambda s: float(np.median(s.pos)),
     }
     m = case["metric"]
@@ -271,6 +276,11 @@ def run_impl(case):
     class Counting:
         def __init__(self):
             self.calls = 0
+
+        if sp.get("unhashable"):      # a callable object that defines equality and is therefore not hashable
+            def __eq__(self, other):
+                return self is other
+            __hash__ = None
 
         def __call__(self, source):
             j = self.calls
